@@ -9,6 +9,8 @@ package main
 //   material/httpsig  authstrategy.HTTPMessageSignatures  init() at start, OnChanged() for the reload
 //   material/keystore keystore.NewKeyStoreFromPEMFile
 //   material/trust    truststore.NewTrustStoreFromPEMFile
+//   creds             redis.fileCredentials (loaders_creds.go): the hot-reloaded credentials file of the redis cache
+//   rulehist          histories of rule files of several sources with lookups after every step (loaders_rules.go)
 //
 // Panics are caught per call (the check wants to know which call panicked); the operations "watch" and "provider"
 // (loaders_bg.go) run the real background goroutines without any protection of their own: there a panic ends the
@@ -61,6 +63,10 @@ func runLoaders(c map[string]any) (any, error) {
 		return c19RemoteOp(c)
 	case "raw":
 		return c19RawOp(c)
+	case "creds":
+		return c19CredsOp(c)
+	case "rulehist":
+		return c19RuleHistory(c)
 	default:
 		return nil, errors.New("loaders: unknown op " + op)
 	}
